@@ -29,17 +29,21 @@ struct Conn {
 
     void attach(std::shared_ptr<vio::Sched> s) { sched = s; if (s && !key.empty()) vio::Registry::get().put(key, s); }
 
+    // TCP: no explicit bind (thousands of short connections per second from several processes would exhaust the ephemeral range
+    // through bind(0) + TIME_WAIT); the local port is known after connect() and the schedule is registered before the first byte
+    // is sent, i.e. before the server can issue its first read on the connection.
     bool open_tcp(int port, std::shared_ptr<vio::Sched> s = nullptr) {
         fd = ::socket(AF_INET, SOCK_STREAM, 0);
         if (fd < 0) return false;
-        sockaddr_in a{}; a.sin_family = AF_INET; a.sin_addr.s_addr = htonl(INADDR_LOOPBACK); a.sin_port = 0;
-        if (::bind(fd, (sockaddr *)&a, sizeof a) != 0) return false;
-        socklen_t l = sizeof a; getsockname(fd, (sockaddr *)&a, &l);
-        key = "t" + std::to_string(ntohs(a.sin_port));
-        attach(s);
         sockaddr_in d{}; d.sin_family = AF_INET; d.sin_addr.s_addr = htonl(INADDR_LOOPBACK); d.sin_port = htons(port);
         int one = 1; setsockopt(fd, IPPROTO_TCP, 1 /*TCP_NODELAY*/, &one, sizeof one);
-        return ::connect(fd, (sockaddr *)&d, sizeof d) == 0;
+        int r = -1;
+        for (int attempt = 0; attempt < 50 && (r = ::connect(fd, (sockaddr *)&d, sizeof d)) != 0 && (errno == EADDRNOTAVAIL || errno == EAGAIN || errno == EINTR); attempt++) usleep(20000);
+        if (r != 0) return false;
+        sockaddr_in a{}; socklen_t l = sizeof a; getsockname(fd, (sockaddr *)&a, &l);
+        key = "t" + std::to_string(ntohs(a.sin_port));
+        attach(s);
+        return true;
     }
     bool open_unix(std::string const &path, std::shared_ptr<vio::Sched> s = nullptr) {
         static std::atomic<unsigned long> ctr{0};
